@@ -528,7 +528,8 @@ func (ref *Node) DoGetChild(r node.ChildRequest) (node.Node, error) {
 	if ref.Options.IgnoreEmpty && !r.New && reflectIsEmpty(obj) {
 		return nil, nil
 	}
-	if meta.IsList(r.Meta) && r.Selection.Path.Meta != r.Meta {
+	// r.Selection is nil when the request comes from exists() (case detection in DoChoose)
+	if meta.IsList(r.Meta) && (r.Selection == nil || r.Selection.Path.Meta != r.Meta) {
 		return ref.NewList(r.Meta, obj.Interface(), ref.onListUpdate(r.Meta.(*meta.List)))
 	}
 	return ref.New(r.Meta, obj.Interface())
